@@ -180,6 +180,22 @@ def c02(seed, tier, broken):
         if not abs(gc - total) <= 1e-9 * (1 + abs(total)):
             found.append(dict(match="graph-chi2-sum", kind="graph_chi2", impl=gc, spec=total, desc=desc))
             return dict(found=found, evaluations=ev)
+        # history: move a vertex / double the information after the first evaluation; chi2 must follow
+        v = rng.choice(g._vertices)
+        v.pose = v.pose + np.array([rng.gauss(0, 0.5) for _ in range(v.pose.COMPACT_DIMENSIONALITY)])
+        t2 = sum(S.edge_chi2(e) for e in g._edges)
+        gc2 = float(g.calc_chi2())
+        ev += 1
+        if not abs(gc2 - t2) <= 1e-9 * (1 + abs(t2)):
+            found.append(dict(match="graph-chi2-stale", kind="graph_chi2_after_move", impl=gc2, spec=t2, moved_vertex=v.id, desc=desc))
+            return dict(found=found, evaluations=ev)
+        for e in g._edges:
+            e.information = np.asarray(e.information) * 2.0
+        gc3 = float(g.calc_chi2())
+        ev += 1
+        if not abs(gc3 - 2 * t2) <= 1e-9 * (1 + abs(t2)):
+            found.append(dict(match="graph-chi2-not-linear-in-information", kind="graph_chi2_linear", impl=gc3, spec=2 * t2, desc=desc))
+            return dict(found=found, evaluations=ev)
     return dict(found=found, evaluations=ev)
 
 
@@ -214,7 +230,14 @@ def c16(seed, tier, broken):
     from search import optimizer as O
 
     w, ev, worst = O.search_numjac(seed, _n(tier, broken, 40, 1500))
-    return dict(found=[w] if w else [], evaluations=ev, worst_deviation_over_tolerance=worst)
+    found = [w] if w else []
+    if not found:
+        # n-ary / mixed-dimension contributions: one iteration on graphs with custom edges must be the Gauss-Newton step
+        w2, ev2, _ = O.search_step(seed + 17, _n(tier, broken, 40, 1500))
+        ev += ev2
+        if w2:
+            found.append(w2)
+    return dict(found=found, evaluations=ev, worst_deviation_over_tolerance=worst)
 
 
 def c15(seed, tier, broken):
